@@ -240,6 +240,14 @@ fn is_size_position(lx: &[(String, String)], i: usize) -> bool {
     back && matches!(prev, "{" | "+" | "-" | "(" | ",")
 }
 
+/// a literal array size (`[T; <n>]`, `[x; <n>]`) above 2^32 - 1 is not a usize value: it must be refused,
+/// so it may be substituted there (smaller big numbers are legal and legitimately enormous arrays)
+fn is_oversized_literal_array_size(lx: &[(String, String)], i: usize, s: &str) -> bool {
+    let prev = if i > 0 { lx[i - 1].1.as_str() } else { "" };
+    let next = lx.get(i + 1).map(|x| x.1.as_str()).unwrap_or("");
+    prev == ";" && next == "]" && s.parse::<u128>().map(|v| v > u32::MAX as u128).unwrap_or(false)
+}
+
 pub fn run(tier: Tier) -> i32 {
     let start = Instant::now();
     let budget = Budget::new(tier.pick(170.0, 3000.0));
@@ -382,7 +390,7 @@ pub fn run(tier: Tier) -> i32 {
             }
             if heavy {
                 for s in &subst {
-                    if BIG_NUMBERS.contains(s) && is_size_position(&lx, i) {
+                    if BIG_NUMBERS.contains(s) && is_size_position(&lx, i) && !is_oversized_literal_array_size(&lx, i, s) {
                         continue; // a 2^32-element array is legal and legitimately enormous
                     }
                     if *s == "-" && in_const_expr(&lx, i) {
@@ -517,7 +525,7 @@ pub fn run(tier: Tier) -> i32 {
                 lit_cases.push(("literal-duplicate".into(), mk(join(&d, &tail))));
             }
             for s in SUBST_ALPHABET {
-                if BIG_NUMBERS.contains(s) && is_size_position(&lx, i) {
+                if BIG_NUMBERS.contains(s) && is_size_position(&lx, i) && !is_oversized_literal_array_size(&lx, i, s) {
                     continue;
                 }
                 let mut d = lx.clone();
